@@ -16,7 +16,7 @@ from typing import Any, List
 from ..absint import App, FuncRef, Interp, Obj, Sym, vrepr
 from ..cfg import CFG, calls_in, node_exprs
 from ..groupmodel import CTX, G, GroupHooks, lin, lin_repr, mk_group
-from ..model import AnalysisError, Repo
+from ..model import AnalysisError, Repo, dotted, norm
 from ..report import Check
 
 
@@ -143,6 +143,69 @@ def run(repo: Repo, chk: Check) -> None:
 
 
     # ---- 4 the mempool offset is the number of pending CONTENTS of the account (each one consumes a counter) -----------------------------------
+    # ---- 5 the cached counter lives in the ExecutionContext: every group built for the user gets a context of its own ---------------------------
+    chk.set_clause('C25.5')
+    nsites = 0
+    for fi2 in repo.iter_functions('pytezos.'):
+        if fi2.module.name == 'pytezos.operation.group':
+            continue
+        for c in [n for n in ast.walk(fi2.node) if isinstance(n, ast.Call)]:
+            d = dotted(c.func)
+            if not d or repo.canonical(repo.resolve_name(fi2.module, d)) != G:
+                continue
+            nsites += 1
+            ctx = next((k.value for k in c.keywords if k.arg == 'context'), c.args[0] if c.args else None)
+            # followed through a local: `ctx = self._spawn_context(); OperationGroup(context=ctx)`
+            if isinstance(ctx, ast.Name):
+                asg = [n.value for n in ast.walk(fi2.node) if isinstance(n, ast.Assign) and any(isinstance(t, ast.Name) and t.id == ctx.id for t in n.targets)]
+                ctx = asg[-1] if len(asg) == 1 else ctx
+            fresh = isinstance(ctx, ast.Call) and isinstance(ctx.func, ast.Attribute) and ctx.func.attr == '_spawn_context'
+            chk.ob('R-FLOW', fi2.qualname, fresh, 'the operation group is built on a context of its own (_spawn_context())', f'{fi2.module.relpath}:{c.lineno}',
+                   {'context_argument': norm(ctx)[:80] if ctx is not None else None},
+                   what=f'{fi2.qualname} builds an operation group on `{norm(ctx)[:60] if ctx is not None else None}`: the counter cache of that context is shared with every other group '
+                        'built from the same object, so a group that is filled or simulated without being injected advances the counters of the next one')
+    chk.minimum('operation groups built outside operation/group.py', nsites, 4)
+
+    # ---- 6 the node state the counters are computed from is read afresh: no shortcut of the shell used by the counter logic goes through a
+    #        member that remembers its first answer (cached_property / lru_cache: a block frozen at first use)
+    chk.set_clause('C25.6')
+    SQ = 'pytezos.rpc.shell.ShellQuery'
+    CACHING = {'cached_property', 'functools.cached_property', 'lru_cache', 'functools.lru_cache', 'cache', 'functools.cache'}
+
+    def first_self_attrs(node):
+        out = set()
+        for n in ast.walk(node):
+            if isinstance(n, ast.Attribute) and isinstance(n.value, ast.Name) and n.value.id == 'self':
+                out.add(n.attr)
+        return out
+
+    def frozen_via(member, seen=()):
+        m = repo.find_method(SQ, member)
+        if m is None or member in seen:
+            return None
+        decos = {dotted(d.func if isinstance(d, ast.Call) else d) for d in m.node.decorator_list}
+        if decos & CACHING:
+            return [member]
+        for a in sorted(first_self_attrs(m.node)):
+            r = frozen_via(a, seen + (member,))
+            if r:
+                return [member] + r
+        return None
+
+    used = set()
+    for q in (f'{CTX}.get_counter', f'{CTX}.get_counter_offset', f'{G}.fill', f'{G}.autofill'):
+        fq = repo.func(q)
+        for n in ast.walk(fq.node):
+            if isinstance(n, ast.Attribute) and isinstance(n.value, ast.Attribute) and n.value.attr == 'shell' and isinstance(n.value.value, ast.Name) and n.value.value.id == 'self':
+                used.add(n.attr)
+    chk.minimum('shell shortcuts read by the counter logic', len(used), 2)
+    for a in sorted(used):
+        chain = frozen_via(a)
+        chk.ob('R-FLOW', f'{SQ}.{a}', chain is None, f'shell.{a} is read from the node each time (no remembered block on the way)', (repo.find_method(SQ, a).loc if repo.find_method(SQ, a) else None),
+               {'through': chain},
+               what=f'shell.{a} goes through {" -> ".join(chain or [])}, which remembers its first answer: after the first block the account counter / mempool are read from a stale '
+                    'context and later operations reuse counters that are already taken')
+
     chk.set_clause('C25.4')
     _offset_clause(repo, chk)
 
